@@ -250,9 +250,31 @@ def blocs(rng, undeclared=False):
     return _finish(rng, n, s, [], [], lines)
 
 
+def threeway(rng, undeclared=False):
+    """a three-way tie for exclusion in which two of the three were jointly lower at the previous stage: the prior-stage rule
+    finds no *unique* lowest there and must go on (to earlier stages, then to the lot)"""
+    nbig = rng.randint(1, 2)
+    ids = list(range(1, nbig + 5)); rng.shuffle(ids)
+    big, (X, Y, Z, Pc) = ids[:nbig], ids[nbig:nbig + 4]
+    d = rng.randint(1, 3)
+    a = 3 * d + rng.randint(1, 4)
+    lines = [(a - d, [X]), (a - d, [Y]), (a, [Z]), (d, [Pc, X]), (d, [Pc, Y])]
+    if rng.random() < 0.3:      # variant: the two were jointly *higher*
+        lines = [(a, [X]), (a, [Y]), (a - d, [Z]), (d, [Pc, Z])]
+        if d > 1:
+            lines[-1] = (d - 1, [Pc, Z]); lines.append((1, [Pc, Z, X]))
+    tot = sum(m for m, _ in lines)
+    for b in big:
+        lines.append((tot + rng.randint(0, 3), [b]))
+    rng.shuffle(lines)
+    # with nbig + 2 seats two of the three tied candidates win: the tie-break decides the winners
+    seats = nbig + 2 if rng.random() < 0.5 else rng.randint(1, max(1, nbig))
+    return _finish(rng, len(ids), seats, [], [], lines)
+
+
 FAMILIES = {
     'plain': plain, 'on_quota': on_quota, 'symmetric': symmetric, 'few_supported': few_supported,
-    'chains': chains, 'sure_losers': sure_losers, 'big': big, 'crossover': crossover, 'blocs': blocs,
+    'chains': chains, 'sure_losers': sure_losers, 'big': big, 'crossover': crossover, 'blocs': blocs, 'threeway': threeway,
 }
 
 
